@@ -268,7 +268,7 @@ func (u *upstream) createClient(addr string) (*client, error) {
 	// start client
 	go func() {
 		c.Start()
-		u.removeClient(addr)
+		u.removeExitedClient(addr, c)
 	}()
 	u.addClientLocked(addr, c)
 	return c, nil
@@ -284,6 +284,18 @@ func (u *upstream) removeClient(addr string) {
 	u.clientsMu.Lock()
 	defer u.clientsMu.Unlock()
 	u.removeClientLocked(addr)
+}
+
+// removeExitedClient removes the client of given address if it's still the
+// given one. The address may already be served by a newer client (e.g. all
+// clients were reset meanwhile), which must not be dropped, otherwise it
+// would never be stopped.
+func (u *upstream) removeExitedClient(addr string, c *client) {
+	u.clientsMu.Lock()
+	defer u.clientsMu.Unlock()
+	if cur, ok := u.loadClients()[addr]; ok && cur == c {
+		u.removeClientLocked(addr)
+	}
 }
 
 func (u *upstream) removeClientLocked(addr string) {
